@@ -167,6 +167,22 @@ EDITS = [
  ('sched-late-cancel-keeps-in-pool', 'C08', 'agent/scheduler/base.py',
   "                if self.is_canceled(task) is True:\n                    del self._waitpool[priority][uid]\n",
   "                self.is_canceled(task)\n", 'C0'),
+ ('waitpool-low-priority-first', 'C04', 'agent/scheduler/base.py',
+  "        for priority in sorted(self._waitpool.keys(), reverse=True):\n\n            to_wait   = list()",
+  "        for priority in sorted(self._waitpool.keys()):\n\n            to_wait   = list()", 'C0'),
+ ('waitpool-drops-env-waiters', 'C04', 'agent/scheduler/base.py',
+  "                                            for task in (unscheduled + to_wait)}",
+  "                                            for task in unscheduled}", 'C0'),
+ ('waitpool-bisect-failure-not-reported', 'C04', 'agent/scheduler/base.py',
+  "                self._fail_task(task, RuntimeError('bisect failed'), error)\n", "                pass\n", 'C0'),
+ ('waitpool-keeps-started-in-pool', 'C04', 'agent/scheduler/base.py',
+  "                                            for task in (unscheduled + to_wait)}",
+  "                                            for task in (scheduled + unscheduled + to_wait)}", 'C0'),
+ ('loop-release-does-not-raise-flag', 'C04', 'agent/scheduler/base.py',
+  "            if not resources and r:\n                resources = True", "            if not resources and r and a:\n                resources = bool(active)", 'C0'),
+ ('loop-flag-reset-after-release', 'C04', 'agent/scheduler/base.py',
+  "            r, a = self._unschedule_completed()\n            if not resources and r:\n                resources = True\n            active += int(a)",
+  "            r, a = self._unschedule_completed()\n            if not resources and r:\n                resources = True\n            active += int(a)\n            if r_wait is False and r_inc is False:\n                resources = False", 'C0'),
  ('master-exit-none-done', 'C05', 'raptor/master.py',
   "                if ret is None:\n                    ret = -1", "                if ret is None:\n                    ret = 0", '_result_cb'),
  ('agent-advance-pushes-failed', 'C05', 'utils/component.py',
